@@ -353,7 +353,7 @@ fn exec_inner(case: &Case, gemm: &Gemm8, guard: Option<GuardPos>) -> Outcome {
         if case.a_form == 1 {
             match catch(|| gemm.prepack_a(a_views[i])) {
                 Ok(p) => packed_a.push(Some(p)),
-                Err(msg) => return panic_fail("prepack_a", &msg),
+                Err(msg) => return panic_outcome(case, "prepack_a", &msg),
             }
         } else {
             packed_a.push(None);
@@ -361,7 +361,7 @@ fn exec_inner(case: &Case, gemm: &Gemm8, guard: Option<GuardPos>) -> Outcome {
         if case.b_form == 1 {
             match catch(|| gemm.prepack_b(b_views[i].unwrap())) {
                 Ok(p) => packed_b.push(Some(p)),
-                Err(msg) => return panic_fail("prepack_b", &msg),
+                Err(msg) => return panic_outcome(case, "prepack_b", &msg),
             }
         } else {
             packed_b.push(None);
@@ -424,7 +424,7 @@ fn exec_inner(case: &Case, gemm: &Gemm8, guard: Option<GuardPos>) -> Outcome {
         });
     }
     let out = match result {
-        Err(msg) => return panic_fail(case.api_name(), &msg),
+        Err(msg) => return panic_outcome(case, case.api_name(), &msg),
         Ok(Err(e)) if e.starts_with("RETURNED_SLICE") => return Outcome::fail("bad_returned_slice", json!({"what": e})),
         Ok(Err(e)) => return Outcome::fail(&format!("error:{}", e), json!({"error": e})),
         Ok(Ok(out)) => out,
@@ -503,6 +503,16 @@ fn exec_inner(case: &Case, gemm: &Gemm8, guard: Option<GuardPos>) -> Outcome {
             o
         }
     }
+}
+
+/// A panic inside rten. For zero-sized problems this is the generic
+/// (element-type independent) defect that C16 reports; C17 is about the
+/// exactness of results, so it is only counted here.
+fn panic_outcome(case: &Case, site: &str, msg: &str) -> Outcome {
+    if case.members() == 0 || case.m == 0 || case.n == 0 || case.k == 0 {
+        return Outcome::no_result(format!("zero_sized_problem_panicked_(reported_under_C16)@{}", site));
+    }
+    panic_fail(site, msg)
 }
 
 fn panic_fail(site: &str, msg: &str) -> Outcome {
@@ -723,6 +733,14 @@ impl Engine for Int8Engine {
             json!({"sub": "int8", "case": small.to_json(), "guard": guard_name(g), "fail": final_kind, "detail": detail,
                    "original_case": case.to_json(), "original_guard": guard_name(guard), "shrink_runs": runs, "seed": self.seed}),
         );
+    }
+
+    fn coarse_class(&self, case: &Case, kind: &str) -> String {
+        format!("{}|{}|{}|{}|{}", case.kernel, case.path(), kind, case.a_zp.min(2), case.b_zp.min(2))
+    }
+
+    fn fault_class(&self, case: &Case) -> String {
+        format!("{}|{}", case.kernel, case.path())
     }
 
     fn sample(&self, case: &Case, _o: &Outcome) -> Option<Json> {
@@ -976,7 +994,7 @@ fn exec_qrt(c: &QCase, rep: &mut Report) -> (bool, Option<(String, Json)>) {
                 )),
             );
         }
-        if scale > 0.0 {
+        if scale > 0.0 && hi - lo >= 1e-33 {
             worst = worst.max(err / scale as f64);
         }
     }
